@@ -564,7 +564,18 @@ func (ev *Eval) quant(kind string, args []ast.Expr) Value {
 		delete(ev.bind, id.Name)
 	}
 	rng := And(Le(lo, qv), Lt(qv, hi))
+	if kind == "forall" && body.S == "true" {
+		return &Prim{T: TTrue}
+	}
 	if kind == "forall" {
+		// forall distributes over conjunction: smaller quantified formulas are easier to instantiate
+		if strings.HasPrefix(body.S, "(and ") {
+			var parts []Term
+			for _, c := range sexprTop(body.S)[1:] {
+				parts = append(parts, Term{fmt.Sprintf("(forall ((%s Int)) %s)", qv.S, Imp(rng, Term{c, SBool}).S), SBool})
+			}
+			return &Prim{T: And(parts...)}
+		}
 		return &Prim{T: Term{fmt.Sprintf("(forall ((%s Int)) %s)", qv.S, Imp(rng, body).S), SBool}}
 	}
 	return &Prim{T: Term{fmt.Sprintf("(exists ((%s Int)) %s)", qv.S, And(rng, body).S), SBool}}
